@@ -114,8 +114,10 @@ Groups ==
             THEN {[k |-> "ep", name |-> Coll, long |-> "", params |-> <<>>, tags |-> <<>>, attrs |-> <<>>, pos |-> NoPos]} ELSE {}),
          {[k |-> "ep", name |-> e, long |-> "", params |-> ps, tags |-> tg, attrs |-> <<>>, pos |-> NoPos] :
                  e \in Pick(EpNames), tg \in Pick(TagSets),
-                 ps \in Pick({<<>>} \cup {<<[n |-> "p", sh |-> sh, tags |-> <<>>]>> :
-                                       sh \in Pick({s \in Shapes(fr.app) : s.wrap = "" /\ ~(s.p = "" /\ Len(s.ref) > 2)})})},
+                 \* a parameter with no tag, with one, or with two whose written order is not the alphabetical one
+                 ps \in Pick({<<>>} \cup {<<[n |-> "p", sh |-> sh, tags |-> pt]>> :
+                                       sh \in Pick({s \in Shapes(fr.app) : s.wrap = "" /\ ~(s.p = "" /\ Len(s.ref) > 2)}),
+                                       pt \in Pick(IF Rich THEN {<<>>, <<"body">>, <<"header", "audit">>} ELSE {<<>>})})},
          {[k |-> "rest", parts |-> ps] : ps \in {<<[var |-> FALSE, n |-> "things"]>>,
                  <<[var |-> FALSE, n |-> "a"], [var |-> TRUE, n |-> "id", sh |-> [p |-> "int", ref |-> <<>>, size |-> <<>>, opt |-> FALSE, wrap |-> ""]]>>}
                  \* a path variable whose type is a reference (to a local type or to a type of another application)
